@@ -43,32 +43,41 @@ extern void mpt_gnode_switch(MPT_STRUCT(node) *pri, MPT_STRUCT(node) *sec)
 {
 	MPT_STRUCT(node) *parent, *next, *prev, *tmp;
 	
+	if (pri == sec) {
+		return;
+	}
 	/* save node pointers */
-	parent	= pri->parent;
-	next	= pri->next;
-	prev	= pri->prev;
+	parent = pri->parent;
+	next   = pri->next;
+	prev   = pri->prev;
 	
-	/* reassign primary */
-	if ((pri->next = tmp = sec->next)) {
+	/* primary takes place of secondary (neighbours refer to each other) */
+	pri->parent = sec->parent;
+	pri->next = (sec->next == pri) ? sec : sec->next;
+	pri->prev = (sec->prev == pri) ? sec : sec->prev;
+	/* secondary takes place of primary */
+	sec->parent = parent;
+	sec->next = (next == sec) ? pri : next;
+	sec->prev = (prev == sec) ? pri : prev;
+	
+	/* update references to switched nodes */
+	if ((tmp = pri->next)) {
 		tmp->prev = pri;
 	}
-	else if ((pri->parent = tmp = sec->parent)
-	         && tmp->children == sec) {
-		tmp->children = pri;
-	}
-	if ((pri->prev = tmp = sec->prev)) {
+	if ((tmp = pri->prev)) {
 		tmp->next = pri;
 	}
-	/* reassign secondary */
-	if ((sec->next = next)) {
-		next->prev = sec;
+	else if ((tmp = pri->parent)) {
+		tmp->children = pri;
 	}
-	else if ((sec->parent = parent)
-	         && parent->children == pri) {
-		parent->children = sec;
+	if ((tmp = sec->next)) {
+		tmp->prev = sec;
 	}
-	if ((sec->prev = prev)) {
-		prev->next = sec;
+	if ((tmp = sec->prev)) {
+		tmp->next = sec;
+	}
+	else if ((tmp = sec->parent)) {
+		tmp->children = sec;
 	}
 }
 
